@@ -518,7 +518,8 @@ def oracle_c17(rows):
                         fails.append(_fail(r, idx, "expired %s changed the wallet" % k))
                 elif s["rc"] == [1, 7]:
                     fails.append(_fail(r, idx, "%s refused as expired with cutoff %d at observed height %d" % (k, ttl, confh)))
-            if prev is not None and k == "update_state" and s["rc"] == [0]:
+            # (also when the call failed with "not cancellable": the refresh had reached its expiry step)
+            if prev is not None and k == "update_state" and s["rc"] in ([0], [1, 10]):
                 tip = s["op"]["tip"]
                 act = prev["active"]
                 ptx = {(t["parent"], t["id"]): t for t in prev["txs"]}
@@ -532,8 +533,15 @@ def oracle_c17(rows):
                     if was_live and due and not t["confirmed"] and not now_cancelled:
                         fails.append(_fail(r, idx, "entry %s with cutoff %s not cancelled at tip %d" % ((t["parent"], t["id"]), p["ttl"], tip)))
                     if now_cancelled and not due:
-                        fails.append(_fail(r, idx, "entry %s cancelled by the refresh without a due cutoff (ttl %s, tip %d)"
-                                           % ((t["parent"], t["id"]), p["ttl"], tip)))
+                        # (not the TTL step: the scan inside update_wallet_state cancels the entry linked to
+                        # an output it finds on chain although recorded Spent — it un-spends that output)
+                        po_ = {(o["acct"], o["child"], o["mmr"]): o for o in prev["outputs"]}
+                        repaired = any(o["tx"] == t["id"] and o["root"] == t["parent"] and o["status"] == 1
+                                       and po_.get((o["acct"], o["child"], o["mmr"]), {}).get("status") == 3
+                                       for o in snap["outputs"])
+                        if not repaired:
+                            fails.append(_fail(r, idx, "entry %s cancelled by the refresh without a due cutoff (ttl %s, tip %d)"
+                                               % ((t["parent"], t["id"]), p["ttl"], tip)))
                     if now_cancelled and due:
                         for o in snap["outputs"]:
                             if o["tx"] == t["id"] and o["root"] == t["parent"] and o["status"] == 2:
